@@ -201,6 +201,14 @@ def allSites (par : Params) (s : Seq) : List Site :=
     is for `mc < 255`. -/
 def digest (par : Params) (s : Seq) : List Digest := digestLoop par s (allSites par s) []
 
+/-- `digest` including the one panic of the real function: `missed_cleavages` is a `u8` and
+    `1 + missed_cleavages` overflows at 255. In the harness build (dev profile, overflow checks on)
+    that is a panic; in a release build the sum wraps to 0, the range `1..=0` is empty and NO
+    missed-cleavage window is generated, i.e. the digest silently behaves like `missed_cleavages = 0`.
+    Without an enzyme the count is forced to 0 first and nothing overflows. -/
+def digestP (par : Params) (s : Seq) : Option (List Digest) :=
+  if par.enzyme.isSome && decide (255 ≤ par.mc) then none else some (digest par s)
+
 /-! ## specification of digestion (independent of the algorithm) -/
 
 /-- the residue test of the rule: for a C-terminal enzyme the residue *before* position `p` is a
@@ -303,6 +311,35 @@ def specOk (par : Params) (s : Seq) (out : List Digest) : Bool :=
   let cs := cands par s
   clNodup out && clSound cs s out && clComplete cs s out && clLabel cs s out && clPos cs s out &&
     clSemi cs s out
+
+/-! ## big proteins: verdict by comparison with the proved model
+
+The O(n²)–O(n³) enumeration above is what the driver evaluates for proteins up to 160 residues.
+Beyond that the verdict is taken against the model's own output, which is justified by two theorems:
+`digest_meets_spec` (the model's output satisfies `specOk`) and `spec_unique` (any two outputs that
+satisfy `specOk` have the same peptide sequences with the same label and semi flag). So a missing /
+extra / duplicated sequence, a different label or a different semi flag IS a violation of the naive
+spec. Only the position is not unique ("true of some occurrence"): it is accepted when equal to the
+model's, and otherwise checked weakly (some occurrence of the string has that position). -/
+
+def occursAt (s w : Seq) (pos : Position) : Bool :=
+  (List.range (s.length + 1 - w.length)).any fun i =>
+    posOf s.length i (i + w.length) == pos && sub s i (i + w.length) == w
+
+def fastVerdict (s : Seq) (model impl : List Digest) : String :=
+  if impl == model then "ok" else
+  if !clNodup impl then "bad:duplicate" else
+  if impl.any (fun d => !(model.any fun m => m.seq == d.seq)) then "bad:unsound" else
+  if model.any (fun m => !(impl.any fun d => d.seq == m.seq)) then "bad:incomplete" else
+  if impl.any (fun d => model.any fun m => m.seq == d.seq && m.mc != d.mc) then "bad:label" else
+  if impl.any (fun d => model.any fun m => m.seq == d.seq && m.semi != d.semi) then "bad:semi_flag" else
+  if impl.any (fun d => !occursAt s d.seq d.pos) then "bad:position" else "ok"
+
+/-- the verdict the driver prints: naive spec up to 160 residues, comparison with the proved model beyond -/
+def digestVerdict (par : Params) (s : Seq) (model impl : List Digest) : String :=
+  if s.length ≤ 160 then
+    (if (cands par s).length * (impl.length + 1) > 3000000 then "na" else specVerdict par s impl)
+  else fastVerdict s model impl
 
 /-! ## FASTA -/
 
